@@ -2,6 +2,8 @@ package main
 
 import (
 	"fmt"
+	"math"
+	"math/big"
 	"go/ast"
 	"go/token"
 	"go/types"
@@ -31,6 +33,10 @@ type Engine struct {
 	Axioms    []*AxiomDef
 	Ghosts    map[string]*GhostDef
 	SpecFiles []string
+	VarFuncs  map[string]*ssa.Function // "var pkg.name" -> function stored there by the package initialiser
+	VarStores map[string]int            // number of stores to the global outside the package initialiser
+	Lemmas    []*LemmaDef
+	SmtDefs   []*SmtDef
 
 	strIDs   map[string]int
 	typeIDs  map[string]int
@@ -52,7 +58,8 @@ func NewEngine(repo string) (*Engine, error) {
 	e := &Engine{RepoDir: repo, Pkgs: map[string]*packages.Package{}, SPkgs: map[string]*ssa.Package{},
 		Funcs: map[string]*ssa.Function{}, Contracts: map[string]*FuncContract{}, Preds: map[string]*PredDef{},
 		UFuncs: map[string]*UFunc{}, Ghosts: map[string]*GhostDef{}, strIDs: map[string]int{}, typeIDs: map[string]int{},
-		typeByID: map[int]types.Type{}, layouts: map[string][]Leaf{}, FloatSort: "Real"}
+		typeByID: map[int]types.Type{}, layouts: map[string][]Leaf{}, FloatSort: "Real",
+		VarFuncs: map[string]*ssa.Function{}, VarStores: map[string]int{}}
 	cfg := &packages.Config{Mode: packages.LoadAllSyntax, Dir: repo, BuildFlags: []string{"-tags=verif"},
 		Env: append(os.Environ(), "GOFLAGS=-mod=mod", "GOPROXY=off", "GOSUMDB=off", "GOTOOLCHAIN=local")}
 	pkgs, err := packages.Load(cfg, "./neat/...", "./experiment", ".")
@@ -113,7 +120,78 @@ func NewEngine(repo string) (*Engine, error) {
 			}
 		}
 	}
+	e.indexVarFuncs()
 	return e, nil
+}
+
+// indexVarFuncs resolves package-level `var f = func...` through the package
+// initialiser, and counts stores to such globals elsewhere (they must be none
+// for the contract of the variable to be the contract of the function).
+func (e *Engine) indexVarFuncs() {
+	for _, path := range e.RepoPkgs {
+		sp := e.SPkgs[path]
+		if sp == nil {
+			continue
+		}
+		for _, f := range e.Funcs {
+			if f.Pkg != sp {
+				continue
+			}
+			isInit := strings.HasPrefix(f.Synthetic, "package init")
+			for _, b := range f.Blocks {
+				for _, in := range b.Instrs {
+					st, ok := in.(*ssa.Store)
+					if !ok {
+						continue
+					}
+					g, ok := st.Addr.(*ssa.Global)
+					if !ok {
+						continue
+					}
+					if _, isSig := g.Type().(*types.Pointer).Elem().Underlying().(*types.Signature); !isSig {
+						continue
+					}
+					key := "var " + g.String()
+					if !isInit {
+						e.VarStores[key]++
+						continue
+					}
+					v := st.Val
+					if ct, ok := v.(*ssa.ChangeType); ok {
+						v = ct.X
+					}
+					switch fv := v.(type) {
+					case *ssa.Function:
+						e.VarFuncs[key] = fv
+					case *ssa.MakeClosure:
+						if ff, ok := fv.Fn.(*ssa.Function); ok && len(fv.Bindings) == 0 {
+							e.VarFuncs[key] = ff
+						}
+					}
+				}
+			}
+		}
+	}
+}
+
+// baseKey strips a contract variant suffix ("@fp").
+func baseKey(key string) string {
+	if k := strings.LastIndex(key, "@"); k > 0 {
+		return key[:k]
+	}
+	return key
+}
+
+// lookupFunc finds the function a contract key denotes.
+func (e *Engine) lookupFunc(key string) *ssa.Function {
+	key = baseKey(key)
+	if f, ok := e.Funcs[key]; ok {
+		return f
+	}
+	if f, ok := e.VarFuncs[key]; ok {
+		return f
+	}
+	return nil
 }
 
 func (e *Engine) shortName(canon string) string {
@@ -130,6 +208,9 @@ func (e *Engine) shortName(canon string) string {
 // the canonical ssa function name.
 func canonKey(key, pkgPath string) string {
 	key = strings.TrimSpace(key)
+	if k := strings.LastIndex(key, "@"); k > 0 {
+		return canonKey(key[:k], pkgPath) + key[k:]
+	}
 	if k := strings.Index(key, "("); k > 0 && !strings.HasPrefix(key, "(") {
 		// tolerate "name(params)" - drop the parameter list
 		key = strings.TrimSpace(key[:k])
@@ -239,11 +320,16 @@ func (e *Engine) LoadSpecs(extDir string) error {
 			e.UFuncs[uf.Name] = uf
 		}
 		e.Axioms = append(e.Axioms, sf.Axioms...)
+		e.Lemmas = append(e.Lemmas, sf.Lemmas...)
+		e.SmtDefs = append(e.SmtDefs, sf.SmtDefs...)
 		for _, g := range sf.Ghosts {
 			e.Ghosts[g.Name] = g
 		}
 		for _, fc := range sf.Funcs {
 			key := canonKey(fc.Key, fp[1])
+			if fc.IsLemma {
+				key = fc.Key
+			}
 			fc.Key = key
 			if _, dup := e.Contracts[key]; dup {
 				return fmt.Errorf("%s:%d: duplicate contract for %s", fc.File, fc.Line, key)
@@ -465,6 +551,14 @@ func (e *Engine) zeroLeaf(l Leaf) *Term {
 
 func (e *Engine) floatLit(s string) *Term {
 	if e.FloatSort == "Real" {
+		// a literal denotes the float64 nearest to it, exactly as in Go source
+		if f, _, err := big.ParseFloat(s, 10, 200, big.ToNearestEven); err == nil {
+			if d, _ := f.Float64(); !math.IsInf(d, 0) {
+				r := new(big.Rat)
+				r.SetFloat64(d)
+				return ratTerm(r)
+			}
+		}
 		return realLit(s)
 	}
 	return A(fpLit(s))
